@@ -145,3 +145,19 @@ class node_labels:
             'strictly ascending (hence no duplicates)': forall(indices(result), lambda i: forall(indices(result), lambda j: implies(i < j, lambda: result[i] < result[j]))),
             'reference node included': zero in result,
         }
+
+
+@contract('CircuitCalculator.Network.network.Network.is_zero_node', props=['C16', 'C01', 'C03'], name='is_zero_node_any_length')
+class is_zero_node:
+    """A node is the reference node iff its label EQUALS the reference label (no prefix / substring / case games)."""
+    def inputs(g):
+        return dict(branches=g.list('b', any_branch), zero=g.label('zero'), node=g.label('node'))
+
+    def requires(branches, zero, node):
+        return valid(branches, zero)
+
+    def call(f, branches, zero, node):
+        return f(Network(branches, zero), node)
+
+    def ensures(result, branches, zero, node):
+        return {'exactly label equality': iff(result, node == zero)}
